@@ -1,6 +1,6 @@
 (* C07 driver.  One case per line:
      L <S|U> <filter: - o e n> <depth0> <items: - or comma ints> <script: - or iterations '/'-separated, queries ','-separated>
-        queries: L I J R r F T P N Y<k> Cx C<v> D d
+        queries: L I J R r F T P N Y<k> Cx C- C<v>[_<v>...] D d
         -> M <else 0|1> <item:ans;ans|...> S <else> <...>      (model run_for, spec on the filtered items)
      L ... <script> <ctls: - or G|C|B per iteration>   the same with loop controls (run_for_ctl, cut)
      T <depth0> <forest>      forest = trees, tree = (label tree ...)
@@ -19,7 +19,8 @@ let parse_query s =
   | 'L' -> QLength | 'I' -> QIndex0 | 'J' -> QIndex | 'R' -> QRevindex | 'r' -> QRevindex0
   | 'F' -> QFirst | 'T' -> QLast | 'P' -> QPrevitem | 'N' -> QNextitem
   | 'Y' -> QCycle (List.init (int_of_string (tl1 s)) (fun i -> n_of_int (101 + i)))
-  | 'C' -> if s = "Cx" then QChanged None else QChanged (Some (n_of_int (int_of_string (tl1 s))))
+  | 'C' -> if s = "Cx" then QChanged None else if s = "C-" then QChanged (Some [])
+           else QChanged (Some (List.map (fun x -> n_of_int (int_of_string x)) (String.split_on_char '_' (tl1 s))))
   | 'D' -> QDepth | 'd' -> QDepth0
   | _ -> failwith ("bad query " ^ s)
 let parse_script s =
